@@ -1,0 +1,81 @@
+//go:build verif
+
+// Package verifhook re-exports internal packages so that an external
+// verification harness can drive them. It is compiled only with the "verif"
+// build tag and adds no behaviour.
+package verifhook
+
+import (
+	"io"
+	"os/exec"
+
+	"go.uber.org/thriftrw/internal/concurrent"
+	"go.uber.org/thriftrw/internal/envelope"
+	"go.uber.org/thriftrw/internal/envelope/exception"
+	"go.uber.org/thriftrw/internal/frame"
+	"go.uber.org/thriftrw/internal/multiplex"
+	"go.uber.org/thriftrw/internal/plugin"
+	"go.uber.org/thriftrw/internal/process"
+	"go.uber.org/thriftrw/protocol"
+)
+
+// internal/frame
+
+type (
+	FrameClient  = frame.Client
+	FrameServer  = frame.Server
+	FrameReader  = frame.Reader
+	FrameWriter  = frame.Writer
+	FrameHandler = frame.Handler
+)
+
+func NewFrameClient(w io.Writer, r io.Reader) *frame.Client { return frame.NewClient(w, r) }
+func NewFrameServer(r io.Reader, w io.Writer) *frame.Server { return frame.NewServer(r, w) }
+func NewFrameReader(r io.Reader) *frame.Reader              { return frame.NewReader(r) }
+func NewFrameWriter(w io.Writer) *frame.Writer              { return frame.NewWriter(w) }
+
+// internal/envelope, internal/multiplex
+
+type (
+	EnvelopeClient        = envelope.Client
+	EnvelopeServer        = envelope.Server
+	EnvelopeHandler       = envelope.Handler
+	EnvelopeTransport     = envelope.Transport
+	ErrUnknownMethod      = envelope.ErrUnknownMethod
+	TApplicationException = exception.TApplicationException
+	MultiplexHandler      = multiplex.Handler
+)
+
+func NewEnvelopeClient(p protocol.Protocol, t envelope.Transport) envelope.Client {
+	return envelope.NewClient(p, t)
+}
+func NewEnvelopeServer(p protocol.Protocol, h envelope.Handler) envelope.Server {
+	return envelope.NewServer(p, h)
+}
+func NewMultiplexHandler() multiplex.Handler { return multiplex.NewHandler() }
+func NewMultiplexClient(name string, c envelope.Client) envelope.Client {
+	return multiplex.NewClient(name, c)
+}
+
+// internal/plugin
+
+type (
+	PluginHandle           = plugin.Handle
+	PluginMultiHandle      = plugin.MultiHandle
+	PluginServiceGenerator = plugin.ServiceGenerator
+	MultiServiceGenerator  = plugin.MultiServiceGenerator
+	PluginFlag             = plugin.Flag
+	PluginFlags            = plugin.Flags
+)
+
+func NewTransportHandle(name string, t envelope.Transport) (plugin.Handle, error) {
+	return plugin.NewTransportHandle(name, t)
+}
+
+// internal/process, internal/concurrent
+
+type ProcessClient = process.Client
+
+func NewProcessClient(cmd *exec.Cmd) (*process.Client, error) { return process.NewClient(cmd) }
+
+func ConcurrentRange(coll, fn interface{}) error { return concurrent.Range(coll, fn) }
